@@ -79,6 +79,10 @@ pub struct EpCfg {
     /// server roles: the sender tasks are started inside the handshake service with `Handshake::sink()`,
     /// before the CONNECT is acknowledged (the send limit is installed only afterwards)
     pub early_senders: bool,
+    /// the publish service's `ready()` returns an error once this many publish handlers have been started
+    pub svc_ready_fail_after: Option<u32>,
+    /// the application's services take (simulated) time in `shutdown()`
+    pub svc_slow_shutdown: bool,
 }
 
 impl Default for EpCfg {
@@ -118,6 +122,8 @@ impl Default for EpCfg {
             client_topic_alias_max: 0,
             client_handshake_timeout_s: 0,
             early_senders: false,
+            svc_ready_fail_after: None,
+            svc_slow_shutdown: false,
         }
     }
 }
